@@ -333,6 +333,56 @@ def zindex_boundary(env, res):
         UrwidImage._ti_free_z_indexes.update(saved[1])
 
 
+def last_row_scenario(env, res):
+    """An image widget that reaches the bottom-right corner of the screen (a title above an
+    image filling the rest: nothing unusual), redrawn in each state of the canvas
+    "disguise": every image line of the canvas must be on the terminal afterwards."""
+    import urwid
+    from PIL import Image
+    from term_image.image import ITerm2Image, KittyImage
+    from term_image.widget import UrwidImage, UrwidImageScreen
+
+    personality = vt_personality(env.persona_name)
+    if personality not in ("kitty", "konsole"):
+        return
+    size = (20, 8)
+    for style in (ITerm2Image, KittyImage) if personality == "konsole" else (KittyImage,):
+        buf = io.StringIO()
+        screen = UrwidImageScreen(sys.__stdin__, buf)
+        screen.start()
+        T = VTerm(size[1], size[0], personality, cooked=False, fill=(" ", None, None))
+        try:
+            widget = UrwidImage(style(Image.new("RGB", (40, 28), (200, 30, 30))), upscale=True)
+            header = urwid.Text("title")
+            top = urwid.Pile([("pack", header), widget])
+            for step, text in enumerate(("title", "title\nsubtitle", "title", "title\nsubtitle", "title")):
+                header.set_text(text)
+                canv = top.render(size, focus=True)
+                screen.draw_screen(size, canv)
+                T.feed(buf.getvalue())
+                buf.seek(0)
+                buf.truncate()
+                R = VTerm(size[1], size[0], personality, cooked=False, fill=(" ", None, None))
+                for i, row in enumerate(canv.content()):
+                    R.feed("\x1b[%d;1H" % (i + 1) + b"".join(seg[2] for seg in row).decode())
+                exp, got = place_keys(R), place_keys(T)
+                res.count("redraws with an image on the last screen row")
+                missing = sorted(set(exp) - set(got))
+                if missing:
+                    res.violation(
+                        "C18:missing-image-on-last-screen-row",
+                        "%s widget reaching the bottom-right corner, redraw %d: %d image line(s) of the canvas are not on the terminal (%s); terminal parser state %r [identity %s]" % (style.__name__, step, len(missing), [m[:6] for m in missing[:2]], T.state, env.persona_name),
+                        dict(kind="lastrow", persona=env.persona_name),
+                    )
+                    break
+                if sorted(set(got) - set(exp)):
+                    res.violation("C18:ghost-image", "last-row scenario, %s, redraw %d: placements left that the canvas does not contain" % (style.__name__, step), dict(kind="lastrow", persona=env.persona_name))
+                    break
+        finally:
+            screen.stop()
+        res.case(("lastrow", style.__name__, env.persona_name))
+
+
 def run_shard(shard, env):
     from ..lib import set_terminal, setup_styles
 
@@ -345,6 +395,8 @@ def run_shard(shard, env):
             c = shard["replay"]
             if c.get("kind") == "zboundary":
                 zindex_boundary(env, res)
+            elif c.get("kind") == "lastrow":
+                last_row_scenario(env, res)
             else:
                 run_history(c["seed"], env, res)
             return res.as_dict()
@@ -360,6 +412,10 @@ def run_shard(shard, env):
             if res.too_many():
                 break
         zindex_boundary(env, res)
+        try:
+            last_row_scenario(env, res)
+        except Exception:
+            res.violation("C18:exception", "last-row scenario: " + traceback.format_exc()[-1500:], dict(kind="lastrow", persona=env.persona_name))
     except Exception:
         res.inconclusive.append(traceback.format_exc()[-2000:])
     return res.as_dict()
